@@ -24,8 +24,8 @@ RULE = (
     "collision or ordering-rule attempt (some operation rejected, or a set_* after an add_*); distinct by (base id, op tuple)."
 )
 BOUND = {
-    "quick": "all sequences of length <= 3 over 24 operations x 9 base stacks (130k), 30000 random of length 4-7, 3000 CommandConfig stacks",
-    "thorough": "all sequences of length <= 4 x 9 base stacks (3.1M), 600000 random of length 5-7, 60000 CommandConfig stacks",
+    "quick": "all sequences of length <= 3 over 29 operations x 9 base stacks (228k), 30000 random of length 4-7, 3000 CommandConfig stacks",
+    "thorough": "all sequences of length <= 4 x 9 base stacks (6.6M), 600000 random of length 5-7, 60000 CommandConfig stacks",
 }
 ASSUMPTIONS = [
     "option listings are compared as sets against the model and in order between builder and format; argument and command-name listings in order (base first)",
@@ -61,6 +61,12 @@ OPS = [
     ("set_arguments", (A("x", "req"), A("z", "opt", True))),
     ("set_arguments", ()),
     ("set_command_options", (CO("dd", None, ["cc"]),)),
+    # aliases written with their dashes; batches whose members conflict with one another
+    ("add", CO("ee", None, ["-a", "--bb"])),
+    ("add_arguments", (A("z", "opt", True), A("y", "req"))),
+    ("add_arguments", (A("x", "opt"), A("x", "req"))),
+    ("add_options", (O("aa", "a"), O("cc", "a"))),
+    ("set_arguments", (A("y", "opt"), A("x", "req"))),
 ]
 BASES = [
     [],
@@ -92,7 +98,7 @@ class Model(object):
     def names_of(e):
         n = [e[1]] + ([e[2]] if e[2] else [])
         if e[0] == "copt":
-            n += list(e[3])
+            n += [a.lstrip("-") for a in e[3]]  # aliases may be written with their dashes
         return n
 
     def all_opts(self):
@@ -131,8 +137,9 @@ class Model(object):
             self.opts = []
         elif what == "set_arguments":
             self.args = []
-        else:
+        elif what == "set_command_options":
             self.copts = []
+        # add_* batches: one addition after the other, the batch stops at the first rejected member
         for e in elems:
             self.add(e)
 
